@@ -87,7 +87,36 @@ def inplace(rng, depth, kind, defs):
     return b
 
 
+def long_case(rng):
+    """Several successful in-place contributors of `contains` annotations on arrays longer than a machine word, each matching in
+    another region of the array (only below index 64 / only from 64 on / both), in every order."""
+    vals = list(ITEMS)
+    rng.shuffle(vals)
+    cs = [Obj([("contains", Obj([("const", v)]))]) for v in vals[:rng.choice([2, 2, 3])]]
+    for c in cs:
+        if rng.random() < 0.2:
+            c.set("minContains", Num("0"))
+    K = rng.choice(["allOf", "allOf", "anyOf"])
+    root = Obj([(K, cs), ("unevaluatedItems", rng.choice([False, False, Obj([("type", "boolean")])]))])
+    if rng.random() < 0.3:
+        root = Obj([("$ref", "#/$defs/r"), ("unevaluatedItems", root.get("unevaluatedItems")), ("$defs", Obj([("r", Obj([(K, cs)]))]))])
+    if rng.random() < 0.3:
+        root.set("prefixItems", [True] * rng.choice([1, 2, 63, 64]))
+    insts = []
+    for _ in range(6):
+        n = rng.choice([64, 65, 65, 66, 70, 128, 129])
+        regions = [rng.choice(["low", "high", "both", "none"]) for _ in vals]
+        arr = []
+        for i in range(n):
+            ok = [v for v, rg in zip(vals, regions) if rg == "both" or (rg == "low" and i < 64) or (rg == "high" and i >= 64)]
+            arr.append(rng.choice(ok) if ok else vals[0])
+        insts.append(arr)
+    return {"op": "validate", "args": {"schema": root, "insts": insts}, "meta": {"kw": 4, "kind7": "arr", "long": True}}
+
+
 def gen_case(rng, tier):
+    if rng.random() < 0.05:
+        return long_case(rng)
     kind = "obj" if rng.random() < 0.55 else "arr"
     defs = []
     depth = rng.choice([1, 2, 3, 4 if tier == "thorough" else 3])
@@ -113,6 +142,14 @@ def gen_case(rng, tier):
         for _ in range(8):
             insts.append([rng.choice(ITEMS) for _ in range(rng.randint(0, 4))])
     insts.append(rng.choice([Num("1"), "a", None]))
+    if kind == "arr" and rng.random() < 0.25:
+        # long arrays (machine-word sized index sets end at 64): one value only below index 64, another only from 64 on
+        for _ in range(3):
+            lo, hi, fill = rng.sample(ITEMS, 3)
+            if rng.random() < 0.5:
+                fill = lo if rng.random() < 0.5 else hi
+            n = rng.choice([64, 65, 66, 70, 129])
+            insts.append([rng.choice([lo, fill, fill]) for _ in range(min(n, 64))] + [rng.choice([hi, fill]) for _ in range(max(0, n - 64))])
     r = rng.random()
     if r < 0.12:
         # the whole case lives in a Loader document; the root only refers to it (annotations and unevaluated* cross the document border)
